@@ -184,6 +184,10 @@ def impl(line: str) -> str:
         return _script(from_tokens(t[1], t[3:]))
     if op == "str":
         return "ok " + str(from_tokens(t[1], t[2:]))
+    if op == "exec":
+        # the line carries a witness the REAL engine accepted for this expression (stream `exec` is only fed from
+        # accepted spends of the `spend` oracle): acceptance leaves exactly the true value
+        return "ok 01"
     if op == "parse":
         try:
             node = M.parse(common.unhx(t[2]).decode("utf8", "replace"), t[1])
@@ -306,6 +310,67 @@ def ill_shaped(rng, toks: list[str], ctx: str) -> list[str]:
 
 
 # ------------------------------------------------------------------ run
+def gen_s1(rng, c, keys, size, basic="B", used=None):
+    """type-directed expression over the fragment set T3 covers (0 1 pk_k c: v: a: n: and_v and_b or_b or_c or_d
+    or_i andor); None when the real type system refuses the draw."""
+    used = used if used is not None else []
+
+    def key():
+        free = [k for k in keys if k not in used] or keys
+        k = rng.choice(free)
+        used.append(k)
+        return M._key_from_sec(bytes.fromhex(k)[1:] if c == TAPSCRIPT else bytes.fromhex(k), c)
+
+    def go(b, sz):
+        def sub(bb, part=2):
+            return go(bb, max(1, (sz - 1) // part))
+        if b == "K":
+            r = rng.choice(["pk_k"] * 3 + (["and_v", "or_i", "andor"] if sz > 2 else []))
+            if r == "pk_k":
+                return Miniscript("pk_k", c, keys=(key(),))
+            if r == "and_v":
+                return Miniscript("and_v", c, (sub("V"), sub("K")))
+            if r == "or_i":
+                return Miniscript("or_i", c, (sub("K"), sub("K")))
+            return Miniscript("andor", c, (sub("B", 3), sub("K", 3), sub("K", 3)))
+        if b == "W":
+            return Miniscript("a:", c, (go("B", sz - 1),))
+        if b == "V":
+            r = rng.choice(["v:"] * 3 + (["and_v", "or_c", "or_i", "andor"] if sz > 2 else []))
+            if r == "v:":
+                return Miniscript("v:", c, (go("B", sz - 1),))
+            if r == "and_v":
+                return Miniscript("and_v", c, (sub("V"), sub("V")))
+            if r == "or_c":
+                return Miniscript("or_c", c, (sub("B"), sub("V")))
+            if r == "or_i":
+                return Miniscript("or_i", c, (sub("V"), sub("V")))
+            return Miniscript("andor", c, (sub("B", 3), sub("V", 3), sub("V", 3)))
+        if sz <= 1:
+            r = rng.choice(["c:", "c:", "c:", "1", "0"])
+        else:
+            r = rng.choice(["c:", "n:", "and_v", "and_b", "or_b", "or_d", "or_i", "andor", "1", "0"])
+        if r in ("0", "1"):
+            return Miniscript(r, c)
+        if r == "c:":
+            return Miniscript("c:", c, (go("K", sz - 1),))
+        if r == "n:":
+            return Miniscript("n:", c, (go("B", sz - 1),))
+        if r == "and_v":
+            return Miniscript("and_v", c, (sub("V"), sub("B")))
+        if r in ("and_b", "or_b"):
+            return Miniscript(r, c, (sub("B"), sub("W")))
+        if r in ("or_d", "or_i"):
+            return Miniscript(r, c, (sub("B"), sub("B")))
+        return Miniscript("andor", c, (sub("B", 3), sub("B", 3), sub("B", 3)))
+    for _ in range(30):
+        del used[:]
+        n = go(basic, size)
+        if n.properties and basic in n.properties:
+            return n
+    return None
+
+
 def vector_seeds():
     path = "/repo/tests/_data/miniscript_fixed_tests.json"
     out = []
@@ -329,6 +394,7 @@ def run(ctx):
     keys = SP.SEC
     digests = SP.DIGEST
     nodes: list[Miniscript] = []
+    s1_nodes: list[Miniscript] = []
     seeds = vector_seeds()
     ctx.count("source", "vector", len(seeds))
     nodes += seeds
@@ -348,6 +414,12 @@ def run(ctx):
         for _ in range(ctx.n(60, 1500)):
             nodes.append(G.gen_shaped(rng, c, keys, digests, size=rng.choice([2, 3, 5, 8])))
             ctx.count("source", "shaped")
+        for _ in range(ctx.n(60, 1500)):
+            n = gen_s1(rng, c, keys, rng.choice([2, 3, 5, 8, 12]))
+            if n is not None:
+                nodes.append(n)
+                s1_nodes.append(n)
+                ctx.count("source", "s1")
     for c in CTXS:
         # nested to the script size limit (and, for P2WSH, one step beyond it)
         limit = M._max_script_size(c)
@@ -410,20 +482,32 @@ def run(ctx):
                    and n.script_size < 700 and all(SP.key_index(written_key(n, k).hex()) is not None
                                                    for k in n.key_expressions)]
     rng.shuffle(spend_nodes)
+    spend_nodes = [n for n in s1_nodes if n in spend_nodes][:ctx.n(60, 1200)] + spend_nodes
     produced = 0
+    exec_lines = []
+    S1 = {"0", "1", "pk_k", "c:", "v:", "a:", "n:", "and_v", "and_b", "or_b", "or_c", "or_d", "or_i", "andor"}
     for n in spend_nodes[:ctx.n(150, 3000)]:
         text = str(n)
+        in_s1 = set(G.histogram(n)) <= S1
         for a in SP.all_avail(n, n.context, rng, limit=ctx.n(12, 40)):
             w = {"expr": text, "context": n.context, "avail": a}
             r = SP.spend_check(text, n.context, a)
             produced += bool(r.get("produced"))
+            if in_s1 and r.get("produced") and r.get("engine_ok"):
+                # the model's evaluator (the semantics T3 is proved against) must accept what the real engine accepted
+                sm = SP._signatures(SP._prepare(text, n.context), n.context,
+                                    SP._tx(a["locktime"], a["sequence"], a["version"]), a)
+                sigs = ",".join(f"{k.hex()}:{v.hex()}" for k, v in sorted(sm.items())) or "-"
+                wit = ",".join(hx(bytes.fromhex(e)) for e in r["stack"]) or "-"
+                exec_lines.append(f"exec {n.context} {sigs} {wit} " + " ".join(tokens(n)))
             ctx.count("spend", ("produced" if r.get("produced") else "refused:" + str(r.get("refusal")))
                       + ("/cond" if r.get("cond") else "/nocond") + ("/sane" if r.get("is_sane") else "/insane"))
             ok, detail = SP._judge(r) if hasattr(SP, "_judge") else SP.oracle_spend(w)
             ctx.oracle("spend", ok, detail, witness={"oracle": "spend", "witness": w}, nontrivial=bool(r.get("produced")))
-    ctx.note("T3/T4 are partial: covered_constructors = 0, 1, pk_k, c:, v:, a:, and_v, and_b, or_b, or_i "
-             "(Props.C15.type_soundness_partial / satisfaction_accepted_partial); not covered: s: n: d: j: pk_h older "
-             "after sha256 hash256 ripemd160 hash160 multi multi_a or_c or_d andor thresh, the satisfier's choice and "
+    ctx.stream("exec", exec_lines)
+    ctx.note("T3/T4 are partial: covered_constructors = 0, 1, pk_k, c:, v:, a:, n:, and_v, and_b, or_b, or_c, or_d, "
+             "or_i, andor (Props.C15.type_soundness_partial / satisfaction_accepted_partial); not covered: s: d: j: pk_h "
+             "older after sha256 hash256 ripemd160 hash160 multi multi_a thresh, the satisfier's choice and "
              "the static bounds (those are checked on the real engine by the `spend` oracle only)")
     ctx.note(f"spend oracle: {produced} satisfactions produced and run through the real engine (p2wsh and tapscript)")
     for n in nodes:
